@@ -18,12 +18,14 @@ pub open spec fn packet_wire_valid(p: Packet) -> bool {
 }
 
 /// sorted ascending, disjoint, non-adjacent, every range non-empty and below 2^62 (same shape as RenetClient::pending_acks)
+#[verifier::opaque]
 pub open spec fn ranges_wf(s: Seq<core::ops::Range<u64>>) -> bool {
     &&& forall|i: int| 0 <= i < s.len() ==> (#[trigger] s[i]).start < s[i].end && s[i].end <= 0x4000_0000_0000_0000
     &&& forall|i: int, j: int| 0 <= i < j < s.len() ==> (#[trigger] s[i]).end < (#[trigger] s[j]).start
 }
 
 /// the same, in the descending order in which the ack decoder collects the ranges
+#[verifier::opaque]
 pub open spec fn ranges_desc_wf(s: Seq<core::ops::Range<u64>>) -> bool {
     &&& forall|i: int| 0 <= i < s.len() ==> (#[trigger] s[i]).start < s[i].end && s[i].end <= 0x4000_0000_0000_0000
     &&& forall|i: int, j: int| 0 <= i < j < s.len() ==> (#[trigger] s[j]).end < (#[trigger] s[i]).start
@@ -33,6 +35,7 @@ pub proof fn lemma_reverse_desc_is_wf(s: Seq<core::ops::Range<u64>>)
     requires ranges_desc_wf(s),
     ensures ranges_wf(s.reverse()),
 {
+    reveal(ranges_wf); reveal(ranges_desc_wf);
     let r = s.reverse();
     assert forall|i: int| 0 <= i < r.len() implies (#[trigger] r[i]).start < r[i].end && r[i].end <= 0x4000_0000_0000_0000 by {
         assert(r[i] == s[s.len() - 1 - i]);
@@ -41,6 +44,36 @@ pub proof fn lemma_reverse_desc_is_wf(s: Seq<core::ops::Range<u64>>)
         assert(r[i] == s[s.len() - 1 - i]);
         assert(r[j] == s[s.len() - 1 - j]);
     }
+}
+
+pub proof fn lemma_desc_single(r: core::ops::Range<u64>)
+    requires r.start < r.end <= 0x4000_0000_0000_0000,
+    ensures ranges_desc_wf(seq![r]),
+{
+    reveal(ranges_desc_wf);
+}
+
+/// a further range entirely below (and not adjacent to) the last one keeps the descending list well formed
+pub proof fn lemma_desc_push(s: Seq<core::ops::Range<u64>>, r: core::ops::Range<u64>)
+    requires ranges_desc_wf(s), s.len() >= 1, r.start < r.end <= 0x4000_0000_0000_0000, r.end < s.last().start,
+    ensures ranges_desc_wf(s.push(r)),
+{
+    reveal(ranges_desc_wf);
+    let t = s.push(r);
+    assert forall|i: int, j: int| 0 <= i < j < t.len() implies (#[trigger] t[j]).end < (#[trigger] t[i]).start by {
+        if j == s.len() {
+            if i < s.len() - 1 { assert(s[s.len() - 1].end < s[i].start); }
+            assert(s[s.len() - 1].start < s[s.len() - 1].end);
+        }
+    }
+}
+
+/// the facts the encoder needs about one position of a well-formed ascending list
+pub proof fn lemma_ranges_wf_at(s: Seq<core::ops::Range<u64>>, i: int)
+    requires ranges_wf(s), 0 <= i < s.len(),
+    ensures s[i].start < s[i].end <= 0x4000_0000_0000_0000, i + 1 < s.len() ==> s[i].end < s[i + 1].start,
+{
+    reveal(ranges_wf);
 }
 
 /// every varint field of the packet is below 2^62 (octets::put_varint panics otherwise) and counts fit their fixed-width fields
@@ -57,7 +90,8 @@ pub open spec fn packet_encodable(p: Packet) -> bool {
         Packet::UnreliableSlice { sequence, channel_id, slice } =>
             sequence < 0x4000_0000_0000_0000 && slice.message_id < 0x4000_0000_0000_0000
             && slice.slice_index < 0x4000_0000_0000_0000 && slice.num_slices < 0x4000_0000_0000_0000 && slice.payload@.len() < 0x4000_0000_0000_0000,
-        Packet::Ack { sequence, ack_ranges } => true,
+        // an ack packet is built from a non-empty, well-formed pending list (RenetClient::get_packets_to_send; U1 keeps that shape)
+        Packet::Ack { sequence, ack_ranges } => sequence < 0x4000_0000_0000_0000 && 1 <= ack_ranges@.len() <= 0x4000_0000_0000_0000 && ranges_wf(ack_ranges@),
     }
 }
 
